@@ -386,7 +386,8 @@ def run(ctx, big=False):
     res.rule = ('three-way: the implementation, a plain-Python reference dictionary with expiry/tags/statistics, and the Coq row-level model. '
                 'Exhaustive short sequences (length 3 quick / 4 thorough, sampled beyond a cap) over 3 keys (incl. an int/float equal pair), 2 values '
                 '(inline, file-backed), ttl {None,0,1}, clock steps {0,1} x 4 policies x statistics; random histories of 60-400 calls crossing the '
-                '100-row page size of iteration and bulk removal; after every call: result vs reference, table contents vs reference (every disappearance '
+                '100-row page size of iteration and bulk removal; a pickled key and the bytes key equal to its pickle (same key column, other raw flag) on the '
+                'first two, the last two and the two positions across a page break of key-ordered iteration; after every call: result vs reference, table contents vs reference (every disappearance '
                 'must be explained by expiry or eviction), model vs table.  non-trivial = the call did not return the default.')
     stats = {'ops': {}, 'lazy_expired': 0, 'evicted': 0, 'max_rows': 0, 'short_sequences': 0}
     thorough = not ctx.quick or big
@@ -395,8 +396,9 @@ def run(ctx, big=False):
     t2, r2 = run_histories(ctx, res, 2 if not thorough else 10, 420, stats, many_keys=True)
     t3, r3 = directed(ctx, res, stats)
     t4, r4 = directed_nan_keys(ctx, res, stats)
+    t5, r5 = directed_raw_twins(ctx, res, stats)
     if not ctx.search_mode:
-        correspondence(ctx, res, t0 + t1 + t2 + t3 + t4, r0 + r1 + r2 + r3 + r4)
+        correspondence(ctx, res, t0 + t1 + t2 + t3 + t4 + t5, r0 + r1 + r2 + r3 + r4 + r5)
     res.extra.update({'op_histogram': stats['ops'], 'items_removed_lazily_after_expiry': stats['lazy_expired'],
                       'items_evicted_at_limit': stats['evicted'], 'largest_table': stats['max_rows'],
                       'short_sequences': stats['short_sequences']})
@@ -430,6 +432,44 @@ def directed_nan_keys(ctx, res, stats):
         res.count(['directed-nan-keys', policy], nontrivial=True)
         for sig, what, idx in viol[:1]:
             res.violations.append(fw.Violation(sig, 'float(nan) keys (regression input of the repaired finding C03-F1): ' + what,
+                                               dict(gen_hist.history_json(objs, hist[:idx + 1], cfg), check='history', failing_call=idx)))
+
+        class G:
+            pass
+        g = G()
+        g.objs = objs
+        terms.append(seqdrv.history_check_term(r, tr, cfg))
+        recs.append((g, hist, cfg))
+    return terms, recs
+
+
+def directed_raw_twins(ctx, res, stats):
+    """Two keys that share the database key column and differ only in `raw`: a pickled key (the tuple (1, 2), raw = 0) and the bytes key
+    equal to its stored pickle (raw = 1).  Key-ordered iteration pages on (key, raw): the pair is placed on the first two positions, on the
+    last two, and across the 100-row page break (the first row is fetched alone, then pages of 100), in both directions, beside integer
+    keys (which sort before every blob).  Three-way check as for any history; iterkeys must list every key exactly once."""
+    import pickle
+    import pickletools
+    terms, recs = [], []
+    twin = pickletools.optimize(pickle.dumps((1, 2), protocol=pickle.HIGHEST_PROTOCOL))
+    for n_fill in (0, 1, 99, 100):
+        cfg = seqdrv.Config(policy='none', min_file_size=16, cull_limit=0)
+        objs = list(range(n_fill)) + [(1, 2), twin, 7]
+        ka, kb, vi = n_fill, n_fill + 1, n_fill + 2
+        S = lambda k, now: {'op': 'set', 'args': {'k': k, 'v': vi, 'expire': None, 'tag': None}, 'now': now}
+        hist = [S(i, 1000.0) for i in range(n_fill)] + [S(kb, 1001.0), S(ka, 1002.0),
+                {'op': 'len', 'args': {}, 'now': 1003.0},
+                {'op': 'iterkeys', 'args': {'reverse': False}, 'now': 1003.0}, {'op': 'iterkeys', 'args': {'reverse': True}, 'now': 1003.0},
+                {'op': 'get', 'args': {'k': ka, 'read': False}, 'now': 1003.0}, {'op': 'get', 'args': {'k': kb, 'read': False}, 'now': 1003.0},
+                {'op': 'delete', 'args': {'k': ka}, 'now': 1004.0},
+                {'op': 'iterkeys', 'args': {'reverse': False}, 'now': 1004.0}, {'op': 'iterkeys', 'args': {'reverse': True}, 'now': 1004.0}]
+        r = seqdrv.Runner(ctx, cfg, observe_every=1)
+        r.objs = objs
+        tr = r.run(hist)
+        viol = check_trace(r, tr, cfg, stats, True)
+        res.count(['directed-raw-twins', n_fill], nontrivial=True)
+        for sig, what, idx in viol[:1]:
+            res.violations.append(fw.Violation(sig, 'keys sharing the key column (tuple and the bytes equal to its pickle) beside %d integer keys: %s' % (n_fill, what),
                                                dict(gen_hist.history_json(objs, hist[:idx + 1], cfg), check='history', failing_call=idx)))
 
         class G:
